@@ -210,7 +210,8 @@ def kcycleStep (d : DS) (ops : List Op) : DS × String :=
   let sets := ops.filterMap fun o => match o with | .kset k v => some (k, v) | _ => none
   let dels := if list then [] else ops.filterMap fun o => match o with | .del k => some k | _ => none
   let effectiveDel := dels.any fun k => (ksrcGet d.ksrc k).isSome
-  let collTick := !sets.isEmpty || effectiveDel
+  -- a list element replayed with an empty set delta ticks nothing; a TSD ticks on every applied delta
+  let collTick := if list then sets.any (fun kv => ksrcGet d.ksrc kv.1 != some kv.2) else (!sets.isEmpty || effectiveDel)
   -- the live zero: a `z` op replays the difference to the zero's previous value
   let zNew := match cfg.zero with
     | .ts => ops.foldl (fun acc o => match o with | .kz v => some v | _ => acc) d.kzero
